@@ -13,7 +13,7 @@ X86MOD = "fidget-jit/src/x86_64/mod.rs"
 
 
 def txt(n):
-    return A.unparse(n).replace(" ", "")
+    return A.ftxt(n)
 
 
 def r_constructors(rule, root=None):
